@@ -46,6 +46,33 @@ def run(cmd, timeout=None, env=None, cwd=None, stdin=subprocess.DEVNULL, capture
     except subprocess.TimeoutExpired as ex:
         return -999, (ex.stdout or b"").decode("utf-8", "replace") if ex.stdout else "", "TIMEOUT"
 
+def to_tla(o):
+    """Python/JSON value -> TLA+ expression text (dicts become functions with string keys, lists become tuples).
+    TLC re-evaluates JsonDeserialize(IOEnv.X) on every reference (measured: 15x slower), so data is inlined."""
+    if isinstance(o, bool):
+        return "TRUE" if o else "FALSE"
+    if isinstance(o, int):
+        return str(o)
+    if isinstance(o, str):
+        return json.dumps(o)
+    if isinstance(o, (list, tuple)):
+        return "<<" + ",".join(to_tla(x) for x in o) + ">>"
+    if isinstance(o, dict):
+        if not o:
+            return "<<>>"
+        return "(" + " @@ ".join("%s :> %s" % (json.dumps(str(k)), to_tla(v)) for k, v in o.items()) + ")"
+    if o is None:
+        return '"null"'
+    raise ValueError("to_tla: %r" % (o,))
+
+def write_mc(wd, name, extends, defs, cfg):
+    """Write a generated model module <name>.tla (+ .cfg) into wd; returns (module path, cfg path)."""
+    with open(os.path.join(wd, name + ".tla"), "w") as f:
+        f.write("---- MODULE %s ----\nEXTENDS %s\n%s\n====\n" % (name, extends, defs))
+    with open(os.path.join(wd, name + ".cfg"), "w") as f:
+        f.write(cfg)
+    return os.path.join(wd, name + ".tla"), os.path.join(wd, name + ".cfg")
+
 def canon(v):
     return json.dumps(v, sort_keys=True, separators=(",", ":"))
 
